@@ -334,7 +334,33 @@ fn exec_c15(doc: &serde_json::Value, mask: u64) -> Option<crate::c15::Viol> {
     crate::c15::check_map(map_seed, mask, n_seeds, None, &mut stats)
 }
 
+fn replay_sweep(doc: &serde_json::Value, path: &str) -> i32 {
+    let class = doc.get("class").and_then(|c| c.as_str()).unwrap_or("");
+    let item = doc.get("item").and_then(|c| c.as_u64()).unwrap_or(0) as usize;
+    let seed = doc.get("verif_seed").and_then(|c| c.as_u64()).unwrap_or(0);
+    let small = crate::sweep::small_types();
+    let mut st = crate::sweep::SweepStats::default();
+    match crate::sweep::item(item, seed, &small, &mut st) {
+        Ok(()) => {
+            println!("replay: no violation");
+            0
+        }
+        Err(v) => {
+            println!("replay: {} - {}", v.class, v.detail);
+            if v.class == class {
+                println!("VIOLATION property=C15 replay={path}");
+                1
+            } else {
+                3
+            }
+        }
+    }
+}
+
 fn replay_c15(doc: &serde_json::Value, path: &str) -> i32 {
+    if doc.get("kind").and_then(|k| k.as_str()) == Some("sweep") {
+        return replay_sweep(doc, path);
+    }
     let class = doc.get("class").and_then(|c| c.as_str()).unwrap_or("");
     let mask: u64 = doc.get("mask").and_then(|s| s.as_str()).and_then(|s| s.parse().ok()).unwrap_or(u64::MAX);
     match exec_c15(doc, mask) {
@@ -356,6 +382,10 @@ fn replay_c15(doc: &serde_json::Value, path: &str) -> i32 {
 }
 
 fn minimise_c15(mut doc: serde_json::Value, path: &str) -> i32 {
+    if doc.get("kind").and_then(|k| k.as_str()) == Some("sweep") {
+        // a sweep item is one (type, value) pair already
+        return 0;
+    }
     let class = doc.get("class").and_then(|c| c.as_str()).unwrap_or("").to_string();
     let mut mask: u64 = doc.get("mask").and_then(|s| s.as_str()).and_then(|s| s.parse().ok()).unwrap_or(u64::MAX);
     let map_seed: u64 = doc.get("map_seed").and_then(|s| s.as_str()).and_then(|s| s.parse().ok()).unwrap_or(0);
